@@ -15,6 +15,8 @@ THEOREMS = [
     "Mpc.C11_conn_recv",
     "Mpc.C11_conn_roundtrip",
     "Mpc.C11_conn_duplex",
+    "Mpc.C11_conn_ring_refines",
+    "Mpc.C11_conn_ring_send_inv",
     "Mpc.C11_be_roundtrip",
 ]
 
@@ -95,7 +97,7 @@ def run(ctx):
         need = ["plan_all", "plan_prefix", "plan_extra", "plan_reinterpret", "plan_lie",
                 "frag_o", "frag_a", "frag_c", "frag_r", "chunk_full", "cases_pipe", "cases_frag_big",
                 "payload_0", "payload_1", "payload_15..17", "payload_64Ki±", "payload_1Mi±",
-                "payload_ge3Mi", "recv_err_eof", "val_b", "val_h", "val_w", "val_l", "val_z", "sys_cases_sys"]
+                "payload_ge3Mi", "recv_err_eof", "ring_distinct_buffers_3", "val_b", "val_h", "val_w", "val_l", "val_z", "sys_cases_sys"]
         missing = [k for k in need if not c.get(k)]
         ctx.oblige("generator reached every plan / fragmentation kind / payload size class / value kind",
                    not missing, "not reached: %s" % missing)
@@ -108,9 +110,10 @@ def run(ctx):
         "every kind ending delta in {0..20} bytes around the 64 KiB write buffer / 1 MiB read buffer end). "
         "distinct = distinct op lines with >= 2 sender operations including a value")
     ctx.assumptions += [
-        "Go channels are FIFO and a buffer received from fromWriter is not touched by the writer goroutine any more "
-        "(the model's queue holds values, not aliased buffers; the harness checks on every Write that the buffer is "
-        "not modified while the Write is in progress)",
+        "Go channels are FIFO; conn.Write is modelled as reading the queued buffer atomically (the physical-ring model "
+        "Ring + theorem C11_conn_ring_refines show that the sender never writes into a queued or free buffer; the "
+        "harness checks on every Write that the buffer is not modified while the Write is in progress and compares the "
+        "sequence of buffer identities with the ring model)",
         "values outside the typed domain (u16 >= 2^16, u32 >= 2^32, payloads >= 4 GiB) are truncated by the Go code; "
         "the theorems carry the explicit hypothesis Val.Valid",
         "a transport Read returns at least one byte or an error (a (0, nil) Read makes Fill spin; excluded)",
@@ -121,7 +124,8 @@ def run(ctx):
         "Theorems (Props/C11.lean) over the executable model Model/Conn.lean: for every operation list, every writer "
         "schedule and any number of extra writer iterations, wire ++ queued ++ current buffer = encoding of the "
         "operations so far, counters = bytes/chunks handed over, chunks are 1..65536 bytes and independent of the "
-        "schedule; Close delivers everything; for every value list, every fragmentation oracle and every trailing "
+        "schedule; the model with the three physical buffers and aliasing made explicit refines the value-level "
+        "model (ownership invariant: current / queued / free buffers pairwise distinct); Close delivers everything; for every value list, every fragmentation oracle and every trailing "
         "rest the matching typed receives return exactly the values, leave exactly the rest and Recvd = bytes taken "
         "from the transport; composition (round trip, both directions). Tie: the same Lean definitions are executed "
         "by drv_c11 on the op lines the harness ran on the real p2p.Conn (harness transport with seeded "
